@@ -38,6 +38,7 @@ CONSTANTS PatSet,       \* set of pattern names to explore
           TamperBudget, \* number of in-transit alterations per behaviour
           Mismatches,   \* subset of {"none","prologue","psk","psk_max","name","rs_i","rs_r","rs_i_bit","rs_r_bit"}: one context item differs (C08)
           ExtraRs,      \* subset of BOOLEAN: also hand the peer's static key to a party the pattern only TRANSMITS it to (C17)
+          ExtraRsOther, \* BOOLEAN: with ExtraRs, the key handed over is NOT the peer's (the transmitted key must win)
           ExtraPsks,    \* subset of BOOLEAN: also supply keys in psk slots the pattern does not use (must change nothing: C12)
           EarlySplit,   \* BOOLEAN: also call dangerously_get_raw_split() once at any earlier point of the handshake (a pure query: the
                         \* rest of the session must be byte-identical to a session without it)
@@ -118,7 +119,7 @@ BIGBUF == 70000
 CfgFor(id, role, pp, fixed, late, mm, ow, extra, xrs) ==
   LET c0 == CfgFor0(id, role, pp, fixed, late, mm, ow)
       c == IF xrs /\ c0.rs = None /\ LearnsRemoteStatic(pp.pat, role)
-           THEN [c0 EXCEPT !.rs = Pub(IF role = "i" THEN sR ELSE sI)] ELSE c0 IN
+           THEN [c0 EXCEPT !.rs = Pub(IF ExtraRsOther THEN sX ELSE IF role = "i" THEN sR ELSE sI)] ELSE c0 IN
   IF extra THEN [c EXCEPT !.psk = [n \in 0..4 |-> IF n \in pp.psks THEN c.psk[n] ELSE Atom("pskX", 32)]] ELSE c
 
 Ows(p, ps) == IF OverwritePsk THEN {NoOw} \cup { <<id, n, k>> : id \in {"I", "R"}, n \in ps, k \in {"fix", "break"} }
@@ -434,7 +435,8 @@ RemoteStaticCorrect ==
   \A id \in {"I", "R"} :
     Mode(id) \in {"hs", "tr", "sl"} =>
       LET o == ObsOf(ep[id]) role == IF id = "I" THEN "i" ELSE "r" IN
-      /\ (o.rs # None => o.rs = PeerStatic(id))
+      \* (with ExtraRsOther the application handed over ANOTHER key: that one is reported until the peer's own key arrives)
+      /\ (o.rs # None => (o.rs = PeerStatic(id) \/ (ExtraRsOther /\ prm.xrs /\ Mode(id) = "hs" /\ o.rs = Pub(sX))))
       /\ (~LearnsRemoteStatic(prm.pp.pat, role) => o.rs = None)
       /\ ((Mode(id) # "hs" /\ LearnsRemoteStatic(prm.pp.pat, role)) => o.rs = PeerStatic(id))
 
